@@ -347,5 +347,14 @@ def _pin_p35():
     return None
 
 
+def _pin_p38():
+    t = Tensor(rank_ids=["M", "K", "N"], shape=[2, 2, 2], default=2)
+    for p, v in {(0, 0, 0): 1, (0, 1, 0): 1, (1, 0, 0): 0}.items():
+        t.getPayloadRef(*p).__ilshift__(v)
+    got = observe.tensor_content(t.mergeRanks(depth=0, levels=2, coord_style="absolute"))
+    return None if got == {} else (f"mergeRanks(levels=2, absolute, sum) of 1 + 1 + 0 under default 2 gives {got}: the partial "
+                                   f"sum 2 (= the default) was dropped")
+
+
 PINNED = {"P21-unflatten-estimated-shape": _pin_p21, "P22-merge-pads-with-default": _pin_p22,
-          "P35-flatten-default-from-empty-lower": _pin_p35}
+          "P35-flatten-default-from-empty-lower": _pin_p35, "P38-multilevel-merge-drops-default-valued-partial": _pin_p38}
